@@ -206,7 +206,9 @@ _assigned_cache = {}
 
 
 def assigned_somewhere(ci, name):
-    """does any method of the class (or of a repository base class) assign self.<name>?"""
+    """does a constructor-time method of the class (or of a repository base class) assign self.<name>?
+    (__init__, __new__ and the _InternalCreateWithQuantity family every construction route goes through;
+    attributes that are only assigned lazily elsewhere are genuinely absent until then)"""
     key = (id(ci), name)
     if key in _assigned_cache:
         return _assigned_cache[key]
@@ -214,7 +216,9 @@ def assigned_somewhere(ci, name):
     for c in ci.mro():
         if not isinstance(c, ClassInfo):
             continue
-        for fi in c.methods.values():
+        for mname, fi in c.methods.items():
+            if mname not in ("__init__", "__new__", "_InternalCreateWithQuantity", "__attrs_post_init__"):
+                continue
             for n in ast.walk(fi.node):
                 tgt = None
                 if isinstance(n, ast.Assign):
@@ -225,8 +229,6 @@ def assigned_somewhere(ci, name):
                     for x in ast.walk(t):
                         if isinstance(x, ast.Attribute) and x.attr == name and isinstance(x.value, ast.Name) and x.value.id in ("self", "cls"):
                             found = True
-        if name in getattr(c, "slots", ()):
-            found = True
     _assigned_cache[key] = found
     return found
 
@@ -712,7 +714,7 @@ class Interp:
                     r = self.class_attr(o.cls, name, instance=v)
                     if r is not None:
                         return r
-                    if assigned_somewhere(o.cls, name):
+                    if not getattr(o, "really_constructed", False) and getattr(o, "region", "") != "fresh-self" and assigned_somewhere(o.cls, name):
                         # the class does assign self.<name> in one of its methods, but this object (built by a
                         # contract's input schema, or read before that assignment) has no such field: its
                         # contents depend on the object's history, which no contract describes -> undecided,
@@ -1080,6 +1082,7 @@ class Interp:
         if "s" in ci.decorators or "attrs" in ci.decorators or "define" in ci.decorators:
             return self.B.attrs_init(self, ci, args, kwargs)
         o = P.alloc(HObj(ci))
+        o.really_constructed = True  # its fields are exactly what the real constructor assigned (so far)
         ref = SRef(o)
         init = ci.find_method("__init__")
         if init is not None:
